@@ -29,6 +29,9 @@ CLAIMED = {
  "C11": ("seqmc", "explicit-state search over request sequences issued to a cached and an uncached authority (state = LRU content and order), differential verdict oracle",
          "Every sequence up to depth 3 (4 thorough) over ~55 requests (sign, verify with replayed/relabelled signatures and other messages, batch-verify with same-concatenation / swapped / other-id batches, combine, QC/TC/AggQC verification incl. relabelled views and swapped QCs, nil signatures) for capacities 1..4 (1..8), all three schemes (BLS one level shallower).",
          "The uncached authority is the reference; signatures are produced once and given to both.", "§4 C11"),
+ "C13": ("seqmc", "exhaustive enumeration of block forests, store/get sequences and commit histories on the real Blockchain and Committer against a reference forest",
+         "Extends for all block pairs of every forest with <=5 (6 thorough) blocks incl. forks, equal views on different branches and missing ancestors; every store/re-store/get sequence to depth 5 (6) with honest, lying and silent peers whose replies pass through the real RequestBlockQF; every parent-first store order x every commit history of every forest with <=4 (5) blocks through the real Committer: abort events vs. committed chain, commit order = chain order.",
+         "Commit targets extend the previous commit (guaranteed by the rulesets, C01/C04); fetch replies enter at the quorum function, not at a socket.", "§4 C13"),
 }
 PENDING = {}  # id -> reason (properties not claimed)
 
